@@ -231,6 +231,9 @@ func (g *congr) compute(v ssa.Value, depth int) string {
 			return fmt.Sprintf("%s#%d", g.key(call, depth+1), x.Index)
 		}
 	case *ssa.Call:
+		if bi, ok := x.Call.Value.(*ssa.Builtin); ok && bi.Name() == "len" && len(x.Call.Args) == 1 {
+			return "len(" + g.key(x.Call.Args[0], depth+1) + ")"
+		}
 		if k, ok := g.helperResult(x, 0, depth); ok && x.Call.Signature().Results().Len() == 1 {
 			return k
 		}
@@ -1544,4 +1547,185 @@ func ruleZ4(c *Ctx) {
 		}
 	}
 	c.ok("Z4", "branch emitters|no marker address", "", fmt.Sprintf("%d equality tests on a parsed target", n))
+}
+
+// ---------------------------------------------------------------------------------------
+// propositional closure of the branch conditions on the way to a block
+// ---------------------------------------------------------------------------------------
+
+// pathFacts: keys of the branch conditions that are decided on every way to blk, with their
+// truth values, closed under: and true ⇒ both; or false ⇒ neither; and false + one true ⇒ the
+// other false; or true + one false ⇒ the other true.
+func pathFacts(f *ssa.Function, blk *ssa.BasicBlock) (map[string]bool, *congr) {
+	g := &congr{memo: map[ssa.Value]string{}}
+	facts := map[string]bool{}
+	var pending [][2]string // compound facts kept for propagation: key, "T"/"F"
+	var add func(k string, truth bool)
+	add = func(k string, truth bool) {
+		for strings.HasPrefix(k, "!") {
+			k, truth = k[1:], !truth
+		}
+		if k == "const:true" || k == "const:false" {
+			return
+		}
+		if old, has := facts[k]; has && old == truth {
+			return
+		}
+		facts[k] = truth
+		if strings.HasPrefix(k, "and(") || strings.HasPrefix(k, "or(") {
+			isAnd := strings.HasPrefix(k, "and(")
+			inner := k[strings.Index(k, "(")+1 : len(k)-1]
+			if l, r, ok := splitTop(inner); ok {
+				if isAnd == truth { // and true / or false: both operands decided
+					add(l, truth)
+					add(r, truth)
+				} else {
+					t := "F"
+					if truth {
+						t = "T"
+					}
+					pending = append(pending, [2]string{k, t})
+				}
+			}
+		}
+	}
+	for _, b := range f.Blocks {
+		iff, ok := b.Instrs[len(b.Instrs)-1].(*ssa.If)
+		if !ok {
+			continue
+		}
+		for i := 0; i < 2; i++ {
+			if edgesDominate(f, []cfgEdge{{b, i}}, blk) && !edgesDominate(f, []cfgEdge{{b, 1 - i}}, blk) {
+				add(g.key(iff.Cond, 0), i == 0)
+			}
+		}
+	}
+	// the condition under which blk is reached at all, as one formula (joins are disjunctions):
+	// covers guards such as `if a && (b || c) { return }` whose continuation has two ways in
+	// (the condition of every dominator holds as well: a join repeats its dominator's condition
+	// inside each disjunct, where and/or decomposition cannot reach it)
+	for d := blk; d != nil; d = d.Idom() {
+		if pc := pathCondKey(g, f, d); pc != "" && len(pc) < 6000 {
+			add(pc, true)
+		}
+	}
+	for round := 0; round < 6; round++ {
+		changed := false
+		for _, pf := range pending {
+			k := pf[0]
+			isAnd := strings.HasPrefix(k, "and(")
+			inner := k[strings.Index(k, "(")+1 : len(k)-1]
+			l, r, ok := splitTop(inner)
+			if !ok {
+				continue
+			}
+			el, er := evalKey(l, facts, 0), evalKey(r, facts, 0)
+			before := len(facts)
+			if isAnd { // and(l,r) is false
+				if el == 1 {
+					add(r, false)
+				}
+				if er == 1 {
+					add(l, false)
+				}
+			} else { // or(l,r) is true
+				if el == 0 {
+					add(r, true)
+				}
+				if er == 0 {
+					add(l, true)
+				}
+			}
+			if len(facts) != before {
+				changed = true
+			}
+		}
+		if !changed {
+			break
+		}
+	}
+	return facts, g
+}
+
+// propLenProof: the facts on the way to blk imply len(x) > k.
+func propLenProof(f *ssa.Function, x ssa.Value, k int64, blk *ssa.BasicBlock) (string, bool) {
+	facts, g := pathFacts(f, blk)
+	lk := "len(" + g.key(x, 0) + ")"
+	for key, truth := range facts {
+		if !strings.HasPrefix(key, "lss(") {
+			continue
+		}
+		l, r, ok := splitTop(key[4 : len(key)-1])
+		if !ok {
+			continue
+		}
+		cval := func(s string) (int64, bool) {
+			if !strings.HasPrefix(s, "const:") {
+				return 0, false
+			}
+			var v int64
+			if _, err := fmt.Sscanf(s[6:], "%d", &v); err != nil {
+				return 0, false
+			}
+			return v, true
+		}
+		// lss(c, len) true: len > c;   lss(len, c) false: len >= c
+		if r == lk && truth {
+			if c, ok := cval(l); ok && c >= k {
+				return fmt.Sprintf("the tests on the way imply len > %d (propositional closure of the branch conditions)", c), true
+			}
+		}
+		if l == lk && !truth {
+			if c, ok := cval(r); ok && c >= k+1 {
+				return fmt.Sprintf("the tests on the way imply len >= %d (propositional closure of the branch conditions)", c), true
+			}
+		}
+	}
+	return "", false
+}
+
+// pathCondKey: the key of the condition under which control reaches blk from the entry of f,
+// ignoring back edges: PC(entry) = true, PC(b) = OR over predecessors p of PC(p) AND cond(p→b).
+func pathCondKey(g *congr, f *ssa.Function, blk *ssa.BasicBlock) string {
+	memo := map[*ssa.BasicBlock]string{}
+	onstack := map[*ssa.BasicBlock]bool{}
+	var pc func(b *ssa.BasicBlock) string
+	pc = func(b *ssa.BasicBlock) string {
+		if k, ok := memo[b]; ok {
+			return k
+		}
+		if b == f.Blocks[0] || len(b.Preds) == 0 {
+			memo[b] = "const:true"
+			return "const:true"
+		}
+		if onstack[b] {
+			return "const:true"
+		}
+		onstack[b] = true
+		res := "const:false"
+		for _, p := range b.Preds {
+			if b.Dominates(p) {
+				continue // back edge
+			}
+			pk := pc(p)
+			ek := "const:true"
+			if iff, ok := p.Instrs[len(p.Instrs)-1].(*ssa.If); ok && p.Succs[0] != p.Succs[1] {
+				ck := g.key(iff.Cond, 0)
+				if p.Succs[0] == b {
+					ek = ck
+				} else {
+					ek = negKey(ck)
+				}
+			}
+			res = orKey(res, andKey(pk, ek))
+			if len(res) > 6000 {
+				res = "const:true"
+				break
+			}
+		}
+		delete(onstack, b)
+		memo[b] = res
+		return res
+	}
+	return pc(blk)
 }
